@@ -25,6 +25,12 @@ def c18(tier):
     strings, values = rs.lines, rv.lines
     inp = {"strings": [l["s"] for l in strings], "values": [l["t"] for l in values]}
     recs = run_harness(binary, "codec", inp)
+    for x in recs:
+        if "bodies" in x:
+            ck.evaluations += x["bodies"]
+            ck.extra["post_check_bodies_decoded_in_sequence"] = x["bodies"]
+            for b in x.get("bad") or []:
+                ck.violation("a JSON request body is not decoded on its own: " + b[:500], {})
     bys = {x["s"]: x for x in recs if "s" in x}
     byv = {x["v"]: x for x in recs if "v" in x}
     for i, l in enumerate(strings):
